@@ -607,6 +607,8 @@ fn twin_tz(r: &mut Rng) {
         Rule { std: -10800, dst: -14400, start: RD::M(4, 1, 6), st: 0, end: RD::M(9, 1, 6), et: 0 },              // negative DST, start < end
         Rule { std: -18000, dst: -14400, start: RD::J(70), st: 7200, end: RD::J(300), et: 7200 },
         Rule { std: 7200, dst: 10800, start: RD::Z(80), st: 3600, end: RD::Z(290), et: 0 },
+        Rule { std: 10800, dst: 14400, start: RD::Z(90), st: 7200, end: RD::Z(340), et: 7200 },                     // late-year zero-based day (leap years shift it)
+        Rule { std: -7200, dst: -3600, start: RD::J(59), st: 0, end: RD::J(335), et: 3600 },                        // Jn around the (uncounted) leap day and in December
         Rule { std: 12600, dst: 16200, start: RD::J(80), st: 86400, end: RD::J(264), et: 86400 },                 // hour 24
         Rule { std: 20700, dst: 24300, start: RD::M(5, 3, 3), st: 5400, end: RD::M(8, 2, 5), et: 1830 },          // odd offsets and times
     ];
